@@ -10,7 +10,7 @@ const LOCK_FILE_NAME: &str = "renamify.lock";
 const STALE_LOCK_TIMEOUT_SECS: u64 = 300; // 5 minutes
 
 /// Lock files currently held by this process, for exit paths that skip destructors.
-static HELD_LOCKS: Mutex<Vec<PathBuf>> = Mutex::new(Vec::new());
+static HELD_LOCKS: Mutex<Vec<(PathBuf, u32, u64)>> = Mutex::new(Vec::new());
 
 /// Remove every lock file this process still holds.
 ///
@@ -18,12 +18,14 @@ static HELD_LOCKS: Mutex<Vec<PathBuf>> = Mutex::new(Vec::new());
 /// normal control flow (the Ctrl-C handler while the confirmation prompt is waiting) calls this
 /// first; otherwise the lock file would be left behind.
 pub fn release_held_locks() {
-    let paths: Vec<PathBuf> = match HELD_LOCKS.try_lock() {
+    let locks: Vec<(PathBuf, u32, u64)> = match HELD_LOCKS.try_lock() {
         Ok(mut held) => held.drain(..).collect(),
         Err(_) => return,
     };
-    for path in paths {
-        let _ = fs::remove_file(&path);
+    for (path, pid, timestamp) in locks {
+        if owns_lock_file(&path, pid, timestamp) {
+            let _ = fs::remove_file(&path);
+        }
     }
 }
 
@@ -109,7 +111,7 @@ impl LockFile {
         linked.context("Failed to create lock file")?;
 
         if let Ok(mut held) = HELD_LOCKS.lock() {
-            held.push(lock_path.clone());
+            held.push((lock_path.clone(), pid, timestamp));
         }
 
         Ok(Self {
@@ -140,14 +142,20 @@ impl LockFile {
 
 impl Drop for LockFile {
     fn drop(&mut self) {
-        // Best effort cleanup on drop
-        if self.path.exists() {
+        // Best effort cleanup on drop. Remove the file only if it is still our lock: a process
+        // that judged this lock stale may have replaced it with its own, which must survive.
+        if owns_lock_file(&self.path, self.pid, self.timestamp) {
             let _ = fs::remove_file(&self.path);
         }
         if let Ok(mut held) = HELD_LOCKS.lock() {
-            held.retain(|p| p != &self.path);
+            held.retain(|(p, _, _)| p != &self.path);
         }
     }
+}
+
+/// True if the lock file at `path` still holds exactly the content this process wrote.
+fn owns_lock_file(path: &Path, pid: u32, timestamp: u64) -> bool {
+    fs::read_to_string(path).is_ok_and(|content| content.trim() == format!("{pid}:{timestamp}"))
 }
 
 /// Check if a process with the given PID is running
